@@ -1,2 +1,8 @@
+-- Library root: everything that `lake build` (setup) must check.
 import EvoModel.Model.Basic
+import EvoModel.Model.Lin
 import EvoModel.Model.Sync
+import EvoModel.Lemmas.Argmin
+import EvoModel.Lemmas.Lin
+import EvoModel.Lemmas.Sync
+import EvoModel.Props.C05
